@@ -21,6 +21,7 @@ ASSUMPTIONS = ['per-line chunks come from the blob stream at asm.resolve_blobs (
 
 SMALL_N = list(range(1, 34))
 BIG_N = [64, 100, 128, 255, 256, 257, 300, 512, 1000, 4096]
+HUGE_N = [4097, 4098, 5000, 8192, 10000, 0x8000, 65536, 100000, 1 << 20]
 
 
 def walk(acc, items, ex, compress, rcase):
@@ -205,9 +206,10 @@ def run_shard(sh, deadline):
 def plan(tier, seed):
     cases = []
     # (alignments above 256 in the quick tier too: small integers are cached objects in CPython, larger ones are not)
-    ns = SMALL_N + (BIG_N if tier == 'thorough' else [64, 256, 257, 300, 512, 1000, 4096])
+    # (and far above: a padding of tens of kilobytes is one `align`, e.g. in front of a flash page or a RAM image)
+    ns = SMALL_N + (BIG_N if tier == 'thorough' else [64, 256, 257, 300, 512, 1000, 4096]) + HUGE_N
     for N in ns:
-        shifts = range(N) if N <= 33 or tier == 'thorough' else [0, 1, N // 2, N - 1]
+        shifts = range(N) if N <= 33 or (tier == 'thorough' and N <= 4096) else [0, 1, N // 2, N - 1] + ([2, 3, N // 4, N - 4097, N - 4096, N - 2] if N > 4096 else [])
         for r in shifts:
             for mode in 'uc':
                 cases.append({'kind': 'sweep', 'N': N, 'shift': r, 'seed': seed, 'mode': mode})
